@@ -12,7 +12,7 @@ Task: make a small, realistic change to the library's non-test Go source in {wt}
 
 Deliver, inside {wt}:
  1. the source change left applied in the worktree (uncommitted), limited to non-test library files;
- 2. a demonstration file `seeded_demo_test.go` (package nutsdb in {wt}, or in ds/list, ds/set or ds/zset if the change is there) containing ONE test function `TestSeededDemo` that FAILS with your change and PASSES on the original code (verify both: use `git stash` / `git stash pop` on the source change, keeping the demo file). The demo must use a fresh temp directory and be deterministic;
+ 2. a demonstration file `seeded_demo_test.go` (package nutsdb in {wt}, or in ds/list, ds/set or ds/zset if the change is there) containing ONE test function `TestSeededDemo` that FAILS with your change and PASSES on the original code (verify both: save the source change with `git diff > /tmp/<your-worktree-name>.patch`, undo it with `git apply -R`, re-apply it with `git apply`, keeping the demo file; do NOT use `git stash`, it is shared between worktrees). The demo must use a fresh temp directory and be deterministic;
  3. a short file `{wt}/SEEDED.md` saying: which file/function you changed, why it breaks the property, and exactly what is needed for the bug to manifest.
 
 Make exactly one bug (one logical change, possibly touching two cooperating sites). Finish by reporting: the diff (git diff of library files), the outcome of the existing test suite with the change, and the demo result with and without the change.'''
